@@ -19,6 +19,12 @@ CHECKS = {
  "C09": dict(technique="bounded-exhaustive enumeration of programs x layouts x comment placements x formatting options through the real formatting handler, re-lexed by an independent lexer",
    text="for every generated syntactically valid program text and option value: answer is null or exactly one TextEdit over exactly the whole document (LSP text model), the non-comment token sequence (kinds and literal values, independent lexer) is unchanged, and re-opening the formatted text publishes the same diagnostics",
    note="independent lexer reflex.rs and text model lsptext.rs; diagnostics compared as (message, non-comment token span)", ref="4/C09"),
+ "C10": dict(technique="bounded-exhaustive enumeration of comment placements (every token gap) on generated programs through the real formatting handler; comment sequence compared by an independent lexer",
+   text="a uniquely numbered comment line in every single gap of the focus declaration of every generated program (every gap of the whole text for every 31st), six comment text classes, and comments in all gaps at once: the comment sequence of the formatted text equals the source's; failures are classified by comment-ownership class (generator vocabulary) and only classes that fail for every member are listed as known findings",
+   note="independent lexer reflex.rs; 9 ownership classes lose comments on the pinned tree (KNOWN_FINDINGS.txt), the other 14 classes are guarded", ref="4/C10"),
+ "C11": dict(technique="bounded-exhaustive enumeration of programs x layouts x formatting options through the real formatting handler; relational oracles (format twice, format two layouts, option independence) and reference nesting levels by construction",
+   text="for every generated program: second formatting returns null, all 6 layouts format to one text, each line is indented k units of the requested unit with k = reference nesting level of its first token, output modulo indentation is option independent, null exactly when unchanged",
+   note="nesting levels by construction from the generator; else-if chains stay on the level of the first if", ref="4/C11"),
  "C17": dict(technique="bounded-exhaustive enumeration of programs x layouts x comment placements through the real foldingRange handler; expected folds by construction",
    text="one fold per procedure, in source order, from the line of `proc` to the line of its last token for every generated program x layout x comment-gap variant; well-formedness (start<=end, inside document, non-overlapping) for every token soup up to 3/4 tokens",
    note="line numbers from the independent text model lsptext.rs", ref="4/C17"),
